@@ -594,6 +594,11 @@ func init() {
 			{Scenario: "tls.writefault2", Bound: 2, BudgetS: 100, Weight: 5},
 			{Scenario: "tls.writefault", Params: vx.P("msgs", "3"), Bound: 0, BudgetS: 100, Weight: 2},
 			{Scenario: "mux.cutrecord", Params: vx.P("frames", "3", "plen", "7"), Bound: 0, BudgetS: 100, Weight: 2},
+			{Scenario: "mux.oversizerecord", Params: vx.P("method", "aes-256-gcm"), Bound: 0, BudgetS: 100, Weight: 2},
+			{Scenario: "mux.oversizerecord", Params: vx.P("method", "plain"), Bound: 0, BudgetS: 100, Weight: 2},
+			// the WebSocket transport as the server sets it up (real upgrade through the in-process CDN edge): the
+			// largest message a session may send passes it in both directions (the driver is C06's)
+			{Scenario: "hs.agree", Params: vx.P("transport", "cdn", "browser", "firefox", "product", "star", "seeds", "1"), Weight: 4},
 			{Scenario: "hs.serverfirst", Params: vx.P("browser", "firefox", "seg", "2"), Bound: 2, BudgetS: 100, Weight: 6},
 			{Scenario: "hs.serverfirst", Params: vx.P("browser", "chrome", "seg", "0", "method", "aes-256-gcm"), Bound: 2, BudgetS: 100, Weight: 6},
 			{Scenario: "ws.segment", Weight: 4},
